@@ -175,7 +175,11 @@ fn main() {
                     for o in &outs[1..] { let b: Value = serde_json::from_slice(&o.0).unwrap_or(Value::Null); if a != b { diffkey = first_diff(&a, &b, ""); break; } }
                     if diffkey.is_empty() { diffkey = "byte-order-only".into(); }
                 }
-                println!("{}", json!({"id": it.name, "runs": outs.len(), "json": dj, "text": dt, "brief": db, "diff": diffkey, "inconsistent_failure": if failed.is_some() { 1 } else { 0 }}));
+                // do two modules of the report share a file name (leaf)?  The report's per-module symbol flags are looked up by that name.
+                let same_leaf = serde_json::from_slice::<Value>(&outs[0].0).ok().and_then(|v| v["modules"].as_array().map(|a| {
+                    let mut names: Vec<String> = a.iter().filter_map(|m| m["filename"].as_str().map(|s| s.to_string())).collect();
+                    let n = names.len(); names.sort(); names.dedup(); names.len() < n })).unwrap_or(false);
+                println!("{}", json!({"id": it.name, "runs": outs.len(), "json": dj, "text": dt, "brief": db, "diff": diffkey, "same_leaf": if same_leaf { 1 } else { 0 }, "inconsistent_failure": if failed.is_some() { 1 } else { 0 }}));
             }
         }
         "total" => {
